@@ -89,7 +89,8 @@ impl<Idx: ZeroCopy + SerializeInner + TypeHash + AlignHash> SerializeInner
     for core::ops::Range<Idx>
 {
     type SerType = Self;
-    const IS_ZERO_COPY: bool = true;
+    // A range is zero-copy only if its index type is
+    const IS_ZERO_COPY: bool = Idx::IS_ZERO_COPY;
     const ZERO_COPY_MISMATCH: bool = false;
 
     #[inline(always)]
@@ -122,7 +123,8 @@ impl<Idx: ZeroCopy + SerializeInner + TypeHash + AlignHash> SerializeInner
     for core::ops::RangeFrom<Idx>
 {
     type SerType = Self;
-    const IS_ZERO_COPY: bool = true;
+    // A range is zero-copy only if its index type is
+    const IS_ZERO_COPY: bool = Idx::IS_ZERO_COPY;
     const ZERO_COPY_MISMATCH: bool = false;
 
     #[inline(always)]
@@ -152,7 +154,8 @@ impl<Idx: ZeroCopy + SerializeInner + TypeHash + AlignHash> SerializeInner
     for core::ops::RangeInclusive<Idx>
 {
     type SerType = Self;
-    const IS_ZERO_COPY: bool = true;
+    // A range is zero-copy only if its index type is
+    const IS_ZERO_COPY: bool = Idx::IS_ZERO_COPY;
     const ZERO_COPY_MISMATCH: bool = false;
 
     #[inline(always)]
@@ -190,7 +193,8 @@ impl<Idx: ZeroCopy + SerializeInner + TypeHash + AlignHash> SerializeInner
     for core::ops::RangeTo<Idx>
 {
     type SerType = Self;
-    const IS_ZERO_COPY: bool = true;
+    // A range is zero-copy only if its index type is
+    const IS_ZERO_COPY: bool = Idx::IS_ZERO_COPY;
     const ZERO_COPY_MISMATCH: bool = false;
 
     #[inline(always)]
@@ -220,7 +224,8 @@ impl<Idx: ZeroCopy + SerializeInner + TypeHash + AlignHash> SerializeInner
     for core::ops::RangeToInclusive<Idx>
 {
     type SerType = Self;
-    const IS_ZERO_COPY: bool = true;
+    // A range is zero-copy only if its index type is
+    const IS_ZERO_COPY: bool = Idx::IS_ZERO_COPY;
     const ZERO_COPY_MISMATCH: bool = false;
 
     #[inline(always)]
